@@ -413,7 +413,9 @@ def r13_4(ctx):
                         ok = any("'ref'" in c for c in conds)
                         r.ob("has_ref is set for the `ref` attribute", ok, C.mloc(hb, n), "; ".join(conds)[:200])
                     else:
-                        ok = any("is_on" in c for c in conds) and any("is_component" in c for c in conds)
+                        # the listener test: the `is_on` helper, or its body written in place (`[b'o', b'n', c, ..]` with c not a lowercase letter)
+                        listener = any("is_on" in c or (re.search(r"\[111, 110, [^\]]*\]", c) and "is_ascii_lowercase()" in c) for c in conds)
+                        ok = listener and any("is_component" in c for c in conds)
                         r.ob("hydration flag only for onXxx listeners on elements", ok, C.mloc(hb, n), "; ".join(conds)[:260])
     return r
 
